@@ -449,9 +449,20 @@ def r07_3(ctx):
                       "{0,1,..} or None and dt > 0")
     fi = model.func(BI, "BrownianInterval._create_dependency_tree")
     rep.analysed(fi)
-    assigns = [a for a in astq.assignments_to(fi, "piece_length")]
+    # the piece length is the local that the refinement loop compares a node's length (`end - start`) against
+    pl = None
+    for w in [n for n in ast.walk(fi.node) if isinstance(n, ast.While)]:
+        for c in [n for n in ast.walk(w) if isinstance(n, ast.Compare) and len(n.ops) == 1]:
+            sides = [c.left, c.comparators[0]]
+            subs = [x for x in sides if isinstance(x, ast.BinOp) and isinstance(x.op, ast.Sub)]
+            names = [x for x in sides if isinstance(x, ast.Name)]
+            if len(subs) == 1 and len(names) == 1 and isinstance(c.ops[0], (ast.Gt, ast.Lt, ast.GtE, ast.LtE)):
+                pl = names[0].id
+    if pl is None:
+        raise AnalysisError("no `length > <piece length>` test in the refinement loop of _create_dependency_tree", where=astq.loc(fi))
+    assigns = [a for a in astq.assignments_to(fi, pl)]
     if len(assigns) != 1 or assigns[0][1] is None:
-        raise AnalysisError("expected exactly one assignment to `piece_length`", where=astq.loc(fi))
+        raise AnalysisError(f"expected exactly one assignment to the piece length `{pl}`", where=astq.loc(fi))
     target_stmt = assigns[0][0]
     results = {}
     for case, is_none in (("cache_size=None", True), ("cache_size in {0,1,2,...}", False)):
@@ -470,12 +481,12 @@ def r07_3(ctx):
         body = fi.node.body
         idx = next((i for i, s in enumerate(body) if s is target_stmt), None)
         if idx is None:
-            raise AnalysisError("`piece_length` is not assigned at the top level of _create_dependency_tree",
+            raise AnalysisError(f"`{pl}` is not assigned at the top level of _create_dependency_tree",
                                 where=astq.loc(fi, target_stmt))
         ev.block([s for s in body[:idx + 1] if not (isinstance(s, ast.Expr) and isinstance(s.value, ast.Constant))])
-        if "piece_length" not in ev.env:
-            raise AnalysisError("interval analysis could not evaluate `piece_length`", where=astq.loc(fi, target_stmt))
-        results[case] = ev.env["piece_length"]
+        if pl not in ev.env:
+            raise AnalysisError(f"interval analysis could not evaluate `{pl}`", where=astq.loc(fi, target_stmt))
+        results[case] = ev.env[pl]
     for case, iv in results.items():
         construct = f"{fi.key}::R07.3::piece_length::{case}"
         rep.check(iv.positive(), "R07.3", astq.loc(fi, target_stmt), construct,
@@ -486,10 +497,10 @@ def r07_3(ctx):
                "(the documented domain)")
     # the refinement loop compares lengths against piece_length with a strict `>`
     cmps = [n for n in ast.walk(fi.node) if isinstance(n, ast.Compare)
-            and any(isinstance(x, ast.Name) and x.id == "piece_length" for x in ast.walk(n))]
+            and any(isinstance(x, ast.Name) and x.id == pl for x in ast.walk(n))]
     for c in cmps:
-        ok = len(c.ops) == 1 and ((isinstance(c.ops[0], ast.Gt) and astq.dotted(c.comparators[0]) == "piece_length")
-                                  or (isinstance(c.ops[0], ast.Lt) and astq.dotted(c.left) == "piece_length"))
+        ok = len(c.ops) == 1 and ((isinstance(c.ops[0], ast.Gt) and astq.dotted(c.comparators[0]) == pl)
+                                  or (isinstance(c.ops[0], ast.Lt) and astq.dotted(c.left) == pl))
         rep.check(ok, "R07.3", astq.loc(fi, c), f"{fi.key}::R07.3::refine-test",
                   f"refinement test `{ast.unparse(c)}` is not `length > piece_length`: nodes no longer than the "
                   f"piece length would still be refined", "refinement only while length > piece_length")
